@@ -93,6 +93,8 @@ type Env struct {
 	Multiline        string            `json:"multiline,omitempty"` // "" | "backslash"
 	Probes           int               `json:"probes,omitempty"`
 	PanicCmd         bool              `json:"panic_cmd,omitempty"`
+	TransientPrompt  string            `json:"transient_prompt,omitempty"` // the application sets a transient prompt function returning this
+	AppCommands      []string          `json:"app_commands,omitempty"`     // commands the application registers under these names (they do nothing)
 	Termios          *TermiosSpec      `json:"termios,omitempty"`
 	Opts             *OptSpec          `json:"opts,omitempty"`
 }
